@@ -277,6 +277,11 @@ def check_design(run, plan, rnd, T, cap, stats, meta, trace_every=7):
                 fs[k] = fs.get(k, 0) + 1
     _after_call_checks(run, ident, len(hist), dict(base_case, mode='trace', sched=None), stats)
     drivers = ident['drivers']
+    ncl = sum(drivers.values())
+    if ncl > 12:
+        cap = max(12, cap // 8)       # big designs: sampled schedules (identity, reverse, random)
+    elif ncl > 6:
+        cap = max(24, cap // 3)
     scheds, total = schedules(drivers, rnd, cap)
     stats['schedules_total_space'] = stats.get('schedules_total_space', 0) + total
     if len(drivers) > 1:
